@@ -300,6 +300,31 @@ def natural_pickles(i: int, proto: int, kind: int, tail: bytes) -> bool:
     return r is True or r == "refused"
 
 
+def raw_two(a: int, b: int, tail: bytes) -> bool:
+    """
+    pre: 0 <= a < 256 and 0 <= b < 256 and len(tail) <= 1
+    post: _
+    """
+    # two arbitrary bytes followed by STOP: whatever the parser accepts must round-trip and stop where the
+    # stock tokeniser stops; what it rejects must raise (never return a Pickled that re-serialises differently)
+    data = bytes([a, b]) + STOP + tail
+    with patched_io():
+        s = SymStream(data)
+        try:
+            p = Pickled.load(s)
+        except (NotImplementedError, F.PickleDecodeError, ValueError, IndexError, UnicodeDecodeError, KeyError, OverflowError):
+            return True
+        rt.reach()
+        out = p.dumps()
+        if data[:len(out)] != out or s.tell() != len(out):
+            return False
+        ref = SymStream(data)
+        n = 0
+        for info, arg, pos in pickletools.genops(ref):
+            n += 1
+        return n == len(p) and ref.tell() == len(out) and isinstance(p[-1], F.Stop)
+
+
 def _stock_end(data):
     import io
     import pickle
@@ -354,4 +379,6 @@ def lemmas(tier):
               doc={"S": ["tail"], "F": ["16 objects x protocols 0-5 x delivery kind (quick: one kind per (object, protocol), rotating), pickled by the stock pickler; stock unpickler's stop position delimits the first pickle"],
                    "bound": "listed objects"}),
     ]
+    L.append(Lemma("raw_two", raw_two, timeout=200 if q else 1800, dry=[{"a": 0x4b, "b": 5, "tail": b""}, {"a": 0x2e, "b": 0x2e, "tail": b"."}],
+                   doc={"S": ["a, b: two fully arbitrary leading bytes (symbolic opcode and argument)", "tail"], "bound": "2 raw bytes + STOP; a solver search, exhaustion not expected in quick"}))
     return L
